@@ -33,6 +33,27 @@ def feature_series(case):
     return s.alias(case.get("fname", "f"))  # a feature may be called like the library's own 'model' column
 
 
+def feature_container(case, feat):
+    """the same float feature as a plain Python list (also one that starts with a numpy integer scalar and continues with
+    non-integral floats): returns (feature object, column name in the output or None)"""
+    fc = case.get("fcontainer")
+    if not fc or feat is None or case["fkind"] != "numeric" or not feat.dtype.is_float() or case.get("fname"):
+        return feat, None
+    import polars as pl
+
+    if feat.dtype != pl.Float64:
+        return feat, None
+    vals = feat.to_list()
+    if fc == "list_npint_first":
+        v0 = vals[0]
+        if v0 is None or v0 != v0 or math.isinf(v0) or not float(v0).is_integer():
+            return feat, None
+        if not any(v is not None and v == v and not math.isinf(v) and not float(v).is_integer() for v in vals[1:]):
+            return feat, None  # all whole numbers: polars would (rightly) build an integer column
+        vals = [np.int64(int(v0))] + vals[1:]
+    return vals, "feature"
+
+
 def fvalues(case):
     return [None if v is None else (float(v) if isinstance(v, str) else v) for v in case["feature"]]
 
@@ -62,12 +83,13 @@ def call_bias(case, perm=None):
                          level=case["level"], n_bins=case["n_bins"], bin_method=case["method"])
         except Exception:
             pass
+    feat, listname = feature_container(case, feat)
     try:
         df = compute_bias(y, P, feature=feat, weights=w, functional=case["f"], level=case["level"], n_bins=case["n_bins"], bin_method=case["method"])
     except Exception as e:
         return {"err": exc_class(e), "msg": str(e)[:200]}
     rows = []
-    fname = case.get("fname", "f")
+    fname = listname or case.get("fname", "f")
     mcol = "model_" if fname == "model" else "model"
     for r in df.iter_rows(named=True):
         fv = r.get(fname) if case["fkind"] != "none" else None
@@ -163,6 +185,11 @@ class C09(Prop):
             c["colnames"] = gen_colnames(rng, nm) if 2 <= nm <= 3 else None
             if c["fkind"] != "none" and rng.random() < 0.15:
                 c["fname"] = rng.choice(["model", "model", "model_"])
+            elif c["fkind"] == "numeric" and rng.random() < 0.3:
+                # the float feature as a plain Python list, also one whose first element is a numpy integer scalar
+                c["fcontainer"] = rng.choice(["list", "list_npint_first", "list_npint_first"])
+                if c["fcontainer"] == "list_npint_first" and isinstance(c["feature"][0], float) and math.isfinite(c["feature"][0]):
+                    c["feature"] = [float(round(c["feature"][0]))] + c["feature"][1:]
             yield c
 
     def impl(self, case):
